@@ -135,3 +135,60 @@ def run_kinds(ctx, n):
     ctx.obligation("oracle:kind-change-no-loss",
                    not any(v.kind == "oracle" and v.signature.startswith("C05:unrecoverable-lost:kind-change") for v in ctx.violations),
                    f"{len(chosen)} unforced checkouts over a path that changes kind (file <-> directory) judged by the oracle only")
+
+
+def run_large_files(ctx):
+    """ONE fixed case: three files above the 1 MiB large-file threshold of build._build_files (hashed by the thread
+    pool), of different sizes, the FIRST-LISTED one the largest and the user's uncached data; the others cached.  An
+    unforced checkout of small cached versions must refuse and leave the user's file (its hash must be its own)."""
+    import dvc_data.hashfile.checkout as co
+    from dvc_objects.fs.local import localfs
+
+    from dvc_data.hashfile.hash_info import HashInfo
+    from dvc_data.hashfile.meta import Meta
+    from dvc_data.hashfile.tree import Tree
+
+    root = ctx.fresh("large")
+    cache, wsd = os.path.join(root, "cache"), os.path.join(root, "ws", "data")
+    os.makedirs(cache)
+    os.makedirs(wsd)
+    names = ["big-one.bin", "big-two.bin", "big-three.bin"]
+    for n in names:
+        open(os.path.join(wsd, n), "wb").close()
+    listed = [n for _, _, fs in localfs.walk(wsd) for n in fs]          # the order build() lists them in
+    sizes = [6 * 2**20, 2 * 2**20, 2**20 + 2**17]
+    blobs = {}
+    for i, n in enumerate(listed):
+        blobs[n] = (b"%d-" % i) * 3 + bytes([65 + i]) * sizes[i]
+        with open(os.path.join(wsd, n), "wb") as f:
+            f.write(blobs[n])
+    user = listed[0]                                                    # the largest, first-listed: the user's data
+    for n in listed[1:]:
+        impl.plant(cache, md5(blobs[n]), blobs[n])
+    for b in (A, B):
+        impl.plant(cache, md5(b), b)
+    odb = impl.make_odb("local", cache, type=["copy"])
+    tr = Tree()
+    for n in sorted(names):
+        tr.add((n,), Meta(size=len(A)), HashInfo("md5", md5(A)))
+    tr.digest()
+    try:
+        r = co.checkout(wsd, localfs, tr, odb, force=False, quiet=True)
+        out = "returned " + repr(r)
+    except Exception as exc:  # noqa: BLE001
+        out = type(exc).__name__
+    try:
+        with open(os.path.join(wsd, user), "rb") as f:
+            kept = f.read() == blobs[user]
+    except FileNotFoundError:
+        kept = False
+    case = {"large_files": True, "listed": listed, "sizes": sizes, "uncached": user}
+    ctx.case(case, True)
+    dd = ctx.extra.setdefault("input_dimensions", {})
+    dd["ws:files-above-the-large-file-threshold"] = dd.get("ws:files-above-the-large-file-threshold", 0) + 1
+    if not kept:
+        ctx.oracle_fail("C05:unrecoverable-lost:large-files",
+                        f"'{user}' ({sizes[0]} bytes, in no cache object, hashed by the large-file pool next to cached files of "
+                        f"{sizes[1]} and {sizes[2]} bytes) did not survive an unforced, unprompted checkout ({out})", case)
+    ctx.obligation("oracle:large-file-pool-no-loss", kept, f"1 workspace with three files above the large-file threshold ({out})")
+    impl.rm_rf(root)
